@@ -32,7 +32,7 @@ def preconstrained_graph():
 def corpus(ctx):
     rng = ctx.rng('ident')
     gs = [gen_graph.theory_example(), gen_cc.theory_conn_example(), multi_start_graph(), preconstrained_graph()]
-    n = 10 if ctx.quick else 80
+    n = 10 if ctx.quick else 250
     for i in range(n):
         r = rng.random()
         if r < 0.5:
